@@ -435,6 +435,14 @@ func c06Dense(w *World, r *Report, id, slug string) {
 					ob.Violate("entry-skipped", ap.Pos(), "an entry can be passed over without a command being appended for it: the follower sees a gap", w.PathString(p)...)
 				}
 			}
+			for _, l := range sliceLoops(host) {
+				if l.Head == h {
+					checkFullTraversal(w, ob, l, "the returned entries", nil)
+					if !strings.Contains(hx(l.Slice), "QueryRaftLog(") {
+						ob.Violate("loop-range", ap.Pos(), "the command loop ranges over `"+hx(l.Slice)+"`, not over the entries returned by the log query")
+					}
+				}
+			}
 			// the loop ranges over the query result in order (rangeindex over the QueryRaftLog result)
 			okRange := false
 			for _, in := range h.Instrs {
@@ -571,6 +579,38 @@ func c06Cache(w *World, r *Report, id, slug string) {
 			}
 		}
 	}
+	// the buffer's elements are never overwritten in place: get hands out sub-slices of it, and
+	// the cached reader holds one across the put that follows
+	for _, fn := range w.ModFuncs() {
+		if fn.Pkg == nil || fn.Pkg.Pkg.Path() != modPath+"/storage/logreader" {
+			continue
+		}
+		eachInstr(fn, func(in ssa.Instruction) {
+			isBuf := func(v ssa.Value) bool {
+				for d := 0; d < 4; d++ {
+					switch x := v.(type) {
+					case *ssa.Slice:
+						v = x.X
+						continue
+					case *ssa.UnOp:
+						if fa, ok := x.X.(*ssa.FieldAddr); ok && types.Identical(deref(fa.X.Type()), cacheT) && fieldAddrName(fa) == "buffer" {
+							return true
+						}
+					}
+					break
+				}
+				return false
+			}
+			if c := plainCall(in); c != nil && CalleeName(c) == "builtin.copy" && isBuf(c.Args[0]) {
+				ob.Violate("buffer-overwritten@"+FnName(fn), in.Pos(), "the cache copies into its buffer in place: sub-slices of the buffer handed out by get (the cached reader holds one across the put that follows) change under their holder")
+			}
+			if st, ok := in.(*ssa.Store); ok {
+				if ia, ok := st.Addr.(*ssa.IndexAddr); ok && isBuf(ia.X) {
+					ob.Violate("buffer-overwritten@"+FnName(fn), in.Pos(), "the cache stores into an element of its buffer in place: sub-slices handed out by get change under their holder")
+				}
+			}
+		})
+	}
 	put := w.Func("storage/logreader", "cache.put")
 	cq := w.Func("storage/logreader", "Cached.QueryRaftLog")
 	if put == nil || cq == nil {
@@ -585,6 +625,50 @@ func c06Cache(w *World, r *Report, id, slug string) {
 				}
 			}
 		})
+		// a log read glued in front of the served cached run: only when its last entry is the
+		// predecessor of the run's first (the read may have been cut short by the size limit)
+		{
+			actx := &ExprCtx{Alias: map[ssa.Value]string{}}
+			var cachedV ssa.Value
+			eachInstr(cq, func(in ssa.Instruction) {
+				ex, ok := in.(*ssa.Extract)
+				if !ok || ex.Index != 0 {
+					return
+				}
+				call, ok := ex.Tuple.(*ssa.Call)
+				if !ok || StaticCallee(&call.Call) == nil {
+					return
+				}
+				switch StaticCallee(&call.Call).Name() {
+				case "get":
+					actx.Alias[ex] = "cached"
+					cachedV = ex
+				case "readLog":
+					actx.Alias[ex] = "read"
+				}
+			})
+			eachInstr(cq, func(in ssa.Instruction) {
+				c := plainCall(in)
+				if c == nil || CalleeName(c) != "builtin.append" || len(c.Args) != 2 || cachedV == nil {
+					return
+				}
+				if actx.Expr(c.Args[0]) != "read" || c.Args[1] != cachedV {
+					return
+				}
+				ob.Site(in.Pos(), "log read glued in front of the cached run")
+				wk := &Walk{Target: func(x ssa.Instruction) bool { return x == in }, EdgeOK: func(b *ssa.BasicBlock, k int) bool {
+					for _, l := range actx.EdgeLits(b, k) {
+						if l.Kind == "int" && !l.IsNE && l.Lo == l.Hi && (l.Lo == 1 || l.Lo == -1) && strings.Contains(l.Terms, "cached[0].Index") && strings.Contains(l.Terms, "read[len(read)") {
+							return false
+						}
+					}
+					return true
+				}}
+				if p := wk.Find(entry(cq)); p != nil {
+					ob.Violate("prepend-unguarded", in.Pos(), "a log read is put in front of the cached entries without its last index having been found to be the predecessor of the first cached one: a read cut short by the size limit leaves a hole in what is served", w.PathString(p)...)
+				}
+			})
+		}
 		contiguous := func(c *ExprCtx) func(b *ssa.BasicBlock, k int) bool {
 			return func(b *ssa.BasicBlock, k int) bool {
 				for _, l := range c.EdgeLits(b, k) {
@@ -707,6 +791,33 @@ func c06Cache(w *World, r *Report, id, slug string) {
 		ob.Site(fn.Pos(), "events."+m+" forwards the raft event")
 		if sends == 0 {
 			ob.Violate("event-not-forwarded/"+m, fn.Pos(), "events."+m+" does not forward the event to the dispatcher")
+		}
+		// what is sent has the type whose arm of the dispatcher invalidates the cache
+		wantT := map[string]string{"LogCompacted": "storage.logCompacted", "NodeDeleted": "storage.nodeDeleted"}[m]
+		sentOK := false
+		var sent []string
+		eachInstr(fn, func(in ssa.Instruction) {
+			var vals []ssa.Value
+			if sel, ok := in.(*ssa.Select); ok {
+				for _, st := range sel.States {
+					if st.Dir == types.SendOnly && st.Send != nil {
+						vals = append(vals, st.Send)
+					}
+				}
+			}
+			if sd, ok := in.(*ssa.Send); ok {
+				vals = append(vals, sd.X)
+			}
+			for _, v := range vals {
+				t := dynTypeOf(v)
+				sent = append(sent, t)
+				if t == wantT {
+					sentOK = true
+				}
+			}
+		})
+		if sends > 0 && !sentOK {
+			ob.Violate("event-type/"+m, fn.Pos(), "events."+m+" sends "+strings.Join(sent, ", ")+", but the dispatcher invalidates the log cache on "+wantT+": the cache keeps serving what the log no longer has")
 		}
 	}
 	ob.NeedFloor(9)
